@@ -477,7 +477,7 @@ def list_case(ctx, build):
 
 
 def workload(ctx, build):
-    n = ctx.n(120, 400) if build == 'plain' else ctx.n(80, 200)
+    n = ctx.n(120, 2500) if build == 'plain' else ctx.n(80, 1500)
     for it in range(n):
         if ctx.out_of_time():
             ctx.notes.append(f'time budget reached after {it} cases ({build})')
@@ -493,7 +493,7 @@ def run(ctx):
         workload(ctx, 'asan')
         return
     workload(ctx, 'plain')
-    if ctx.shard != 0:
+    if ctx.shard % 4 != 0:   # quick: the one shard; thorough: four sanitized processes with different seeds
         ctx.count('sanitized_cases')
         ctx.count('sanitizer_log_parsed')
         return
@@ -508,7 +508,7 @@ def run(ctx):
         state = os.path.join(b['scratch'], 'state.json')
         e = sanitize.sanitizer_env(b['scratch'], log_prefix)
         e['VERIF_C15_SANITIZED'] = '1'
-        cmd = [env.PY, os.path.join(env.VERIF, 'run_check.py'), 'C15', '--tier', ctx.tier, '--seed', str(ctx.seed),
+        cmd = [env.PY, os.path.join(env.VERIF, 'run_check.py'), 'C15', '--tier', ctx.tier, '--seed', str(ctx.seed * 1000 + ctx.shard),
                '--shard', '0', '--nshards', '1', '--state-out', state]
         res = subprocess.run(cmd, env=e, capture_output=True, text=True, timeout=TIME_BUDGET[ctx.tier] * 2)
         if not os.path.exists(state):
